@@ -33,6 +33,7 @@ type Directives struct {
 	Opt               bool   // opt: reply carries an OPT with options
 	NsTTL             int64  // nsttl<N>: TTL of the authority and additional records (-1 = same rule as the answers)
 	Pad               int    // pad<N>: one extra TXT answer with exactly N octets of text (N <= 255): response sizes in 1-byte steps
+	QR0               bool   // qr0: the reply has the QR bit clear (what a gateway that echoes the request, or a captive portal, sends)
 	AA, AD            bool   // aa / ad: the reply has the AA / AD flag set (an authoritative / validating upstream)
 	Fat               bool   // fat (with uexact<N>): the padding goes into the first answer record itself - one TXT record with up to 64 KiB
 	// of text - instead of hundreds of small records, so that name compression saves next to nothing
@@ -75,6 +76,9 @@ func ParseDirectives(firstLabel string) Directives {
 			continue
 		case "stream":
 			d.Stream = true
+			continue
+		case "qr0":
+			d.QR0 = true
 			continue
 		case "aa":
 			d.AA = true
@@ -203,7 +207,7 @@ func BuildReply(name string, qtype, qclass uint16, tag string, serial uint32, d 
 	lower := strings.ToLower(name)
 	key := Key(lower, qtype, qclass, tag)
 	m := new(dns.Msg)
-	m.Response = true
+	m.Response = !d.QR0
 	m.RecursionAvailable = true
 	m.RecursionDesired = true
 	m.Authoritative, m.AuthenticatedData = d.AA, d.AD
